@@ -2,8 +2,9 @@
 //!
 //! Reference = exact arithmetic.  Windowed views: the exact batch oracle over the recent inputs (and,
 //! on streams short enough, the same generic code at the exact scalar run in lock step).  Recursive
-//! views on long streams: a fresh f64 instance fed only the last S(N) inputs (no history => no
-//! accumulated drift; C09 bounds the truncation below 1e-12).
+//! views on long streams: the reference model of C11 (or, for SuperSmoother/Roofing, a fresh f64
+//! instance of the code) fed only the last S(N) inputs (no history => no accumulated drift; C09
+//! bounds the truncation below 1e-12).
 //! Drift clause: three-decade streams of 1e5 (quick) / 1e6 (thorough) values, output within 1e-6 of
 //! natural scale of the reference at 200+ checkpoints and at every one of the last 2N steps (f32:
 //! 1e-2 on streams of 1e4).  Flat clause: volatile prefix, then N+1..3N identical values; within
@@ -145,12 +146,38 @@ struct Ctx<'a> {
 
 fn reference_at<T: Scalar>(v: &V, xs: &[f64], t: usize, got: f64) -> Option<f64> {
     if v.recursive {
-        // fresh restart on the last S(N) inputs
+        // restart on the last S(N) inputs: no history => no accumulated drift.  Where the reference
+        // model of C11 uses literally the same constants as the statement (everything but the
+        // SuperSmoother / RoofingFilter pair with its 4.4422 spelling), it is the *reference model*
+        // that is restarted, so that a defect which needs only a few thousand inputs (stale residue
+        // after a volatile stretch) cannot contaminate the reference; otherwise a fresh instance of
+        // the code
         let s = settle(&v.kind) + 8;
         let from = (t + 1).saturating_sub(s);
+        let tail = &xs[from..=t];
+        use crate::oracle::ehlers as oe;
+        let by_model: Option<Option<f64>> = match v.kind {
+            Kind::Ema(n) => Some(match crate::oracle::window::seq_ema(tail, n, 2.0).last() {
+                Some(Ex::Val(x)) if tail.len() >= n => Some(*x),
+                _ => None,
+            }),
+            Kind::EmaAlpha(n, a) => Some(match crate::oracle::window::seq_ema(tail, n, a).last() {
+                Some(Ex::Val(x)) if tail.len() >= n => Some(*x),
+                _ => None,
+            }),
+            Kind::LagFilter(g) => Some(oe::laguerre_filter(tail, g).last().copied().flatten()),
+            Kind::Cyber(n) => Some(oe::cyber_cycle(tail, n).last().copied().flatten()),
+            Kind::TrendFlex(n) => Some(oe::trend_flex(tail, n).last().and_then(|(o, _)| *o)),
+            Kind::ReFlex(n) => Some(oe::re_flex(tail, n).last().and_then(|(o, _)| *o)),
+            Kind::LagRsi(n) => Some(oe::laguerre_rsi(tail, n).last().and_then(|(o, _)| *o)),
+            _ => None,
+        };
+        if let Some(r) = by_model {
+            return r;
+        }
         guarded(|| {
             let mut f = build_plain::<f64>(&Spec::leaf(v.kind));
-            for x in &xs[from..=t] {
+            for x in tail {
                 f.update(*x);
             }
             f.last()
@@ -358,7 +385,7 @@ impl Monitor for C16 {
         v
     }
     fn rule(&self) -> String {
-        "trial = (one of 25 views; N; clause; value grid dyadic or tenths; scalar f64, or f32 in thorough). drift: three-decade stream (values in [1,1000], non-zero steps in [1/8,100]) of 1e5 (quick) / 1e6 (thorough) values (shorter for O(N)-per-update and recursive views), f64 output vs exact reference at 200 checkpoints and each of the last 2N steps, 1e-6 of natural scale (f32: 1e-2, 1e4 values). flat: three-decade or wide-range (x 2^0..2^20) volatile prefix then N+1..3N copies of c in {1, 1000, 1/8, 0.1, 1/3, 123.456, 7, 0}, every step whose window is flat, 1e-4 of scale. Reference: exact batch oracle over the recent inputs for windowed views; fresh f64 instance on the last S(N) inputs for recursive ones. distinct = distinct (view, N, clause, scalar, stream)".into()
+        "trial = (one of 25 views; N; clause; value grid dyadic or tenths; scalar f64, or f32 in thorough). drift: three-decade stream (values in [1,1000], non-zero steps in [1/8,100]) of 1e5 (quick) / 1e6 (thorough) values (shorter for O(N)-per-update and recursive views), f64 output vs exact reference at 200 checkpoints and each of the last 2N steps, 1e-6 of natural scale (f32: 1e-2, 1e4 values). flat: three-decade or wide-range (x 2^0..2^20) volatile prefix then N+1..3N copies of c in {1, 1000, 1/8, 0.1, 1/3, 123.456, 7, 0}, every step whose window is flat, 1e-4 of scale. Reference: exact batch oracle over the recent inputs for windowed views; the C11 reference model (SuperSmoother/Roofing: a fresh f64 instance of the code) restarted on the last S(N) inputs for recursive ones. distinct = distinct (view, N, clause, scalar, stream)".into()
     }
     fn assumptions(&self) -> Vec<String> {
         vec![
